@@ -24,9 +24,33 @@ def bounded(prop, name, bound, functions, exhaustive=False, tier="quick"):
   return deco
 
 
+_SAFE = {"len": len, "int": int, "str": str, "any": any, "all": all, "isinstance": isinstance, "abs": abs, "min": min,
+         "max": max}
+
+
+def match_known_bounded(known, prop, item):
+  """Returns the known finding (dict) whose predicate matches this bounded-tier failure, or None."""
+  for f in known.get("findings", []):
+    m = f.get("match", {})
+    if f.get("property") != prop or m.get("kind") != "bounded":
+      continue
+    if m.get("check") and m["check"] != item.get("check"):
+      continue
+    try:
+      if eval(m["predicate"], {"__builtins__": _SAFE},
+              dict(inputs=item.get("inputs"), what=item.get("what"), observed=item.get("observed"),
+                   expected=item.get("expected"))):
+        return f
+    except Exception:
+      continue
+  return None
+
+
 class Ctx:
-  def __init__(self, tier, seed, name):
+  def __init__(self, tier, seed, name, prop=None, known=None):
     self.tier, self.seed, self.name = tier, seed, name
+    self.prop, self.known = prop, known or {}
+    self.known_hits = {}      # finding id -> [count, first example]
     self.evaluations = 0
     self.nontrivial = set()
     self.failures = []
@@ -49,9 +73,15 @@ class Ctx:
       self.samples.append(sample)
 
   def fail(self, what, inputs, observed=None, expected=None):
+    item = dict(check=self.name, what=what, inputs=_js(inputs), observed=_js(observed), expected=_js(expected))
+    f = match_known_bounded(self.known, self.prop, item) if self.known else None
+    if f is not None:
+      # failures matching a committed known finding are tallied separately so that they cannot crowd out new ones
+      h = self.known_hits.setdefault(f["id"], [0, item, f["what"]])
+      h[0] += 1
+      return
     if len(self.failures) < 50:
-      self.failures.append(dict(check=self.name, what=what, inputs=_js(inputs), observed=_js(observed),
-                                expected=_js(expected)))
+      self.failures.append(item)
 
   def check(self, cond, what, inputs, observed=None, expected=None):
     if not cond:
